@@ -412,7 +412,11 @@ func genC16(r *core.Rand, run int) *MuxScenario {
 		case 9: // bind another method's implicit /Service/Method path for every verb
 			other := c16Methods[r.Intn(len(c16Methods))]
 			if other.Service+"."+other.Name != rule.Selector {
-				rule = RuleSpec{Selector: rule.Selector, Verb: "custom:*", Template: "/" + other.Service + "/" + other.Name, Body: "*", Conflict: true}
+				// (for every verb, or for one: kind "*" on the implicit path claims that one too, whichever comes first)
+				rule = RuleSpec{Selector: rule.Selector, Verb: r.PickS("custom:*", "custom:*", "post", "get", "patch"), Template: "/" + other.Service + "/" + other.Name, Body: "*", Conflict: true}
+				if rule.Verb == "get" {
+					rule.Body = ""
+				}
 			}
 		case 10: // beside an earlier rule's variable, the literal its probe instantiates the variable with - under another verb
 			if len(sc.Rules) > 0 {
@@ -556,10 +560,10 @@ func implicitBindings(service string) map[binding]string {
 }
 
 // overlaps reports the owners of bindings that share key's template, belong to
-// another method, and meet key only through kind "*" ("every verb" on one side,
-// one verb on the other). Whether that is a conflict the property does not say
-// (larking refuses it in one registration order and routes the specific verb
-// first in the other), so the model predicts neither verdict there.
+// another method, and meet key through kind "*" ("every verb" on one side, one
+// verb on the other): a conflict, in whichever order the two arrive (kind "*"
+// claims every verb). The model first predicted neither verdict here (larking
+// refused one order and accepted the other); see DESIGN.md section 15.
 func overlaps(bound map[binding]string, key binding, owner string) []string {
 	var out []string
 	for k, o := range bound {
@@ -588,7 +592,9 @@ func (m *ruleModel) wouldAccept(service string) (ok bool, why string, unsure []s
 		}
 	}
 	for k, v := range implicitBindings(service) {
-		unsure = append(unsure, overlaps(bound, k, v)...)
+		if ov := overlaps(bound, k, v); len(ov) > 0 {
+			return false, "conflict on the implicit path " + k.tmpl + " (bound for every verb) with a verb of " + ov[0], nil
+		}
 		bound[k] = v
 	}
 	for _, rule := range m.sc.Rules {
@@ -604,7 +610,9 @@ func (m *ruleModel) wouldAccept(service string) (ok bool, why string, unsure []s
 			if owner, ok := bound[key]; ok && owner != rule.Selector {
 				return false, "conflict on " + b.Verb + " " + b.Template + " with " + owner, nil
 			}
-			unsure = append(unsure, overlaps(bound, key, rule.Selector)...)
+			if ov := overlaps(bound, key, rule.Selector); len(ov) > 0 {
+				return false, "conflict on " + b.Verb + " " + b.Template + " with " + ov[0] + " (kind * claims every verb)", nil
+			}
 			bound[key] = rule.Selector
 		}
 	}
